@@ -439,10 +439,10 @@ theorem get_fresh {st st' : St} {d : Dense} {cells : List Val} (hf : FreshOf st 
     cases cells[i.toNat]? <;> rfl
 
 /-- a fresh copy of the storage window reads like the window itself, at every index -/
-theorem get_fresh_raw {st st' : St} {t d : Dense} {cells : List Val}
-    (hr : t.rawCells st = .ok cells) (hf : FreshOf st st' d cells) (i : Int) :
-    st'.get d.win i = st.get t.win i := by
-  have hlen := rawCells_length st t cells hr
+theorem get_fresh_raw {st0 st st' : St} {t d : Dense} {cells : List Val}
+    (hr : t.rawCells st0 = .ok cells) (hf : FreshOf st st' d cells) (i : Int) :
+    st'.get d.win i = st0.get t.win i := by
+  have hlen := rawCells_length st0 t cells hr
   rw [get_fresh hf i]
   by_cases hi : i < 0 ∨ i ≥ (t.win.len : Int)
   · have : (i < 0 || i ≥ (cells.length : Int)) = true := by
@@ -506,40 +506,72 @@ theorem sanityOk_iff (shape : Shape) (n : Nat) :
     sanityOk shape n = true ↔ ((n : Int) = totalSize shape ∨ isScalar shape = true) := by
   simp [sanityOk]
 
-theorem gob_dec_enc (st : St) (t : Dense) (rec : Rec) (hm : t.mask = none)
-    (h : gobEnc st t = .ok rec) :
-    ∃ cells, t.rawCells st = .ok cells ∧
-      ((((t.win.len : Int) = totalSize t.ap.shape ∨ isScalar t.ap.shape = true) →
-          ∃ st' d, gobDec st rec = .ok (st', d) ∧
-            Decoded st st' d { shape := t.ap.shape, strides := t.ap.strides, fin := true, o := t.ap.o } t.dt cells) ∧
-       (((t.win.len : Int) ≠ totalSize t.ap.shape ∧ isScalar t.ap.shape = false) →
-          ∃ tag, gobDec st rec = .error (.err tag))) := by
+/-! ### `packed()` -/
+
+/-- a tensor whose storage window is exactly as long as the tensor is large is encoded as it is -/
+theorem packed_same (st : St) (t : Dense) (h : (t.win.len : Int) = totalSize t.ap.shape) :
+    packed st t = .ok (st, t) := by
+  unfold packed
+  simp [Dense.shape, h]
+  rfl
+
+/-- the fields `GobEncode` writes are those of the packed tensor -/
+theorem gobEnc_spec (st : St) (t : Dense) (rec : Rec) (h : gobEnc st t = .ok rec) :
+    ∃ st1 r mask cells, packed st t = .ok (st1, r) ∧ maskCells st1 r = .ok mask ∧ r.rawCells st1 = .ok cells ∧
+      rec = { shape := r.ap.shape, strides := r.ap.strides, o := r.ap.o, dt := r.dt, mask := mask, data := cells } := by
   unfold gobEnc at h
-  simp only [maskCells, hm, bind, Except.bind, pure, Except.pure] at h
-  cases hr : t.rawCells st with
-  | error e => simp [hr] at h
-  | ok cells =>
-    simp only [hr] at h
-    injection h with h
-    subst h
-    have hlen := rawCells_length st t cells hr
-    refine ⟨cells, rfl, ?_, ?_⟩
-    · intro hw
-      have hsan : sanityOk t.ap.shape cells.length = true := by
-        rw [sanityOk_iff, hlen]; exact hw
-      simp only [Dense.shape, Dense.strides]
-      rw [gobDec_data, if_pos hsan]
-      exact ⟨_, _, rfl, ⟨rfl, rfl, rfl, rfl, rfl, ⟨rfl, rfl⟩⟩⟩
-    · intro hw
-      have hsan : ¬ sanityOk t.ap.shape cells.length = true := by
-        rw [sanityOk_iff, hlen]
-        intro h'
-        rcases h' with h' | h'
-        · exact hw.1 h'
-        · rw [hw.2] at h'; cases h'
-      simp only [Dense.shape, Dense.strides]
-      rw [gobDec_data, if_neg hsan]
-      exact ⟨_, rfl⟩
+  simp only [bind, Except.bind, pure, Except.pure] at h
+  cases hp : packed st t with
+  | error e => simp [hp] at h
+  | ok p =>
+    obtain ⟨st1, r⟩ := p
+    simp only [hp] at h
+    cases hmk : maskCells st1 r with
+    | error e => simp [hmk] at h
+    | ok mask =>
+      simp only [hmk] at h
+      cases hr : r.rawCells st1 with
+      | error e => simp [hr] at h
+      | ok cells =>
+        simp only [hr] at h
+        injection h with h
+        exact ⟨st1, r, mask, cells, rfl, hmk, hr, h.symm⟩
+
+/-- `GobDecode ∘ GobEncode` in terms of the packed tensor `r` (unmasked): shape, strides and order flags of
+    `r` are taken over, the buffer is a fresh copy of `r`'s window; `sanity()` accepts it when the window is
+    exactly as long as the tensor is large or the tensor is of rank 0, and refuses it otherwise -/
+theorem gob_dec_enc (st st1 : St) (t r : Dense) (rec : Rec) (hp : packed st t = .ok (st1, r)) (hm : r.mask = none)
+    (h : gobEnc st t = .ok rec) :
+    ∃ cells, r.rawCells st1 = .ok cells ∧
+      ((((r.win.len : Int) = totalSize r.ap.shape ∨ isScalar r.ap.shape = true) →
+          ∃ st' d, gobDec st rec = .ok (st', d) ∧
+            Decoded st st' d { shape := r.ap.shape, strides := r.ap.strides, fin := true, o := r.ap.o } r.dt cells) ∧
+       (((r.win.len : Int) ≠ totalSize r.ap.shape ∧ isScalar r.ap.shape = false) →
+          ∃ tag, gobDec st rec = .error (.err tag))) := by
+  obtain ⟨st1', r', mask, cells, hp', hmk, hr, hrec⟩ := gobEnc_spec st t rec h
+  rw [hp] at hp'
+  injection hp' with hp'
+  injection hp' with h1 h2
+  subst h1 h2
+  simp only [maskCells, hm, pure, Except.pure] at hmk
+  injection hmk with hmk
+  subst hmk hrec
+  have hlen := rawCells_length st1 r cells hr
+  refine ⟨cells, hr, ?_, ?_⟩
+  · intro hw
+    have hsan : sanityOk r.ap.shape cells.length = true := by
+      rw [sanityOk_iff, hlen]; exact hw
+    rw [gobDec_data, if_pos hsan]
+    exact ⟨_, _, rfl, ⟨rfl, rfl, rfl, rfl, rfl, ⟨rfl, rfl⟩⟩⟩
+  · intro hw
+    have hsan : ¬ sanityOk r.ap.shape cells.length = true := by
+      rw [sanityOk_iff, hlen]
+      intro h'
+      rcases h' with h' | h'
+      · exact hw.1 h'
+      · rw [hw.2] at h'; cases h'
+    rw [gobDec_data, if_neg hsan]
+    exact ⟨_, rfl⟩
 
 /-! ### gob with a mask -/
 
@@ -553,35 +585,27 @@ theorem maskCells_length (st : St) (t : Dense) (m : Win) (mc : List Bool) (hm : 
     back with the same metadata, a fresh copy of the window and a fresh copy of the whole mask. -/
 theorem gob_dec_enc_masked (st : St) (t : Dense) (rec : Rec) (m : Win) (hm : t.mask = some m)
     (hml : m.len = t.win.len) (hpos : 0 < t.win.len)
-    (hw : (t.win.len : Int) = totalSize t.ap.shape ∨ isScalar t.ap.shape = true) (h : gobEnc st t = .ok rec) :
+    (hw : (t.win.len : Int) = totalSize t.ap.shape) (h : gobEnc st t = .ok rec) :
     ∃ cells mc st' d, t.rawCells st = .ok cells ∧ maskCells st t = .ok mc ∧ gobDec st rec = .ok (st', d) ∧
       d.ap = { shape := t.ap.shape, strides := t.ap.strides, fin := true, o := t.ap.o } ∧ d.dt = t.dt ∧
       FreshOf st st' d cells ∧
       d.mask = some ⟨st.mheap.size, 0, mc.length, mc.length⟩ ∧ st'.mheap = st.mheap.push mc.toArray := by
-  unfold gobEnc at h
-  simp only [bind, Except.bind, pure, Except.pure] at h
-  cases hmk : maskCells st t with
-  | error e => simp [hmk] at h
-  | ok mc =>
-    simp only [hmk] at h
-    cases hr : t.rawCells st with
-    | error e => simp [hr] at h
-    | ok cells =>
-      simp only [hr] at h
-      injection h with h
-      subst h
-      have hlen := rawCells_length st t cells hr
-      have hmlen := maskCells_length st t m mc hm hmk
-      have hsan : sanityOk t.ap.shape cells.length = true := by
-        rw [sanityOk_iff, hlen]; exact hw
-      refine ⟨cells, mc, ?_⟩
-      unfold gobDec
-      have h2 : mc.length = cells.length := by omega
-      have hc : 0 < cells.length := by omega
-      simp only [Dense.shape, Dense.strides, St.alloc, St.allocMask, bind, Except.bind, pure, Except.pure,
-        h2, hsan]
-      simp [hc]
-      exact ⟨_, _, ⟨rfl, rfl⟩, rfl, rfl, ⟨rfl, rfl⟩, rfl, rfl⟩
+  obtain ⟨st1, r, mc, cells, hp, hmk, hr, hrec⟩ := gobEnc_spec st t rec h
+  rw [packed_same st t hw] at hp
+  injection hp with hp
+  injection hp with h1 h2
+  subst h1 h2 hrec
+  have hlen := rawCells_length st t cells hr
+  have hmlen := maskCells_length st t m mc hm hmk
+  have hsan : sanityOk t.ap.shape cells.length = true := by
+    rw [sanityOk_iff, hlen]; exact Or.inl hw
+  refine ⟨cells, mc, ?_⟩
+  unfold gobDec
+  have h2 : mc.length = cells.length := by omega
+  have hc : 0 < cells.length := by omega
+  simp only [St.alloc, St.allocMask, bind, Except.bind, pure, Except.pure, h2, hsan]
+  simp [hc]
+  exact ⟨hr, hmk, _, _, ⟨rfl, rfl⟩, rfl, rfl, ⟨rfl, rfl⟩, rfl, rfl⟩
 
 /-! ### protobuf / flatbuffers -/
 
@@ -596,17 +620,22 @@ theorem sanityOk_size (shape : Shape) (h : 0 ≤ totalSize shape) : sanityOk sha
   simp [sanityOk, Int.toNat_of_nonneg h]
 
 theorem rawEnc_spec (st : St) (t : Dense) (rec : Rec) (h : rawEnc st t = .ok rec) :
-    ∃ cells, t.rawCells st = .ok cells ∧
-      rec = { shape := t.ap.shape, strides := t.ap.strides, o := { col := t.ap.o.col, nonContig := t.ap.o.nonContig },
-              dt := t.dt, data := cells } := by
+    ∃ st1 r cells, packed st t = .ok (st1, r) ∧ r.rawCells st1 = .ok cells ∧
+      rec = { shape := r.ap.shape, strides := r.ap.strides, o := { col := r.ap.o.col, nonContig := r.ap.o.nonContig },
+              dt := r.dt, data := cells } := by
   unfold rawEnc at h
   simp only [bind, Except.bind, pure, Except.pure] at h
-  cases hr : t.rawCells st with
-  | error e => simp [hr] at h
-  | ok cells =>
-    simp only [hr] at h
-    injection h with h
-    exact ⟨cells, rfl, h.symm⟩
+  cases hp : packed st t with
+  | error e => simp [hp] at h
+  | ok p =>
+    obtain ⟨st1, r⟩ := p
+    simp only [hp] at h
+    cases hr : r.rawCells st1 with
+    | error e => simp [hr] at h
+    | ok cells =>
+      simp only [hr] at h
+      injection h with h
+      exact ⟨st1, r, cells, rfl, hr, h.symm⟩
 
 theorem pbDec_data (st : St) (shape strides : List Int) (o : Order) (dt : String) (cells : List Val)
     (h0 : 0 ≤ totalSize shape) :
@@ -631,25 +660,31 @@ theorem fbDec_data (st : St) (shape strides : List Int) (o : Order) (dt : String
 theorem rawFill_length (n : Nat) (cells : List Val) : (rawFill n cells).length = n := by
   simp [rawFill]; omega
 
-/-- `PBDecode ∘ PBEncode` for any layout: shape and strides are taken over, the buffer holds the first
-    `size` cells of the source window -/
-theorem pb_dec_enc (st : St) (t : Dense) (rec : Rec) (h : rawEnc st t = .ok rec) (h0 : 0 ≤ totalSize t.ap.shape) :
-    ∃ cells st' d, t.rawCells st = .ok cells ∧ pbDec st rec = .ok (st', d) ∧
-      Decoded st st' d { shape := t.ap.shape, strides := t.ap.strides, fin := false,
-                         o := { col := t.ap.o.col, nonContig := t.ap.o.nonContig } } t.dt
-        (rawFill (totalSize t.ap.shape).toNat cells) := by
-  obtain ⟨cells, hr, rfl⟩ := rawEnc_spec st t rec h
+/-- `PBDecode ∘ PBEncode` in terms of the packed tensor `r`: its shape and strides are taken over, the buffer
+    holds the first `size` cells of its window -/
+theorem pb_dec_enc (st : St) (t : Dense) (rec : Rec) (h : rawEnc st t = .ok rec) :
+    ∃ st1 r cells, packed st t = .ok (st1, r) ∧ r.rawCells st1 = .ok cells ∧
+      (0 ≤ totalSize r.ap.shape → ∃ st' d, pbDec st rec = .ok (st', d) ∧
+        Decoded st st' d { shape := r.ap.shape, strides := r.ap.strides, fin := false,
+                           o := { col := r.ap.o.col, nonContig := r.ap.o.nonContig } } r.dt
+          (rawFill (totalSize r.ap.shape).toNat cells)) := by
+  obtain ⟨st1, r, cells, hp, hr, rfl⟩ := rawEnc_spec st t rec h
+  refine ⟨st1, r, cells, hp, hr, ?_⟩
+  intro h0
   rw [pbDec_data _ _ _ _ _ _ h0]
-  exact ⟨cells, _, _, hr, rfl, ⟨rfl, rfl, rfl, rfl, rfl, ⟨rfl, by simp [rawFill_length]⟩⟩⟩
+  exact ⟨_, _, rfl, ⟨rfl, rfl, rfl, rfl, rfl, ⟨rfl, by simp [rawFill_length]⟩⟩⟩
 
-theorem fb_dec_enc (st : St) (t : Dense) (rec : Rec) (h : rawEnc st t = .ok rec) (h0 : 0 ≤ totalSize t.ap.shape) :
-    ∃ cells st' d, t.rawCells st = .ok cells ∧ fbDec st rec = .ok (st', d) ∧
-      Decoded st st' d { shape := t.ap.shape, strides := t.ap.strides, fin := true,
-                         o := { col := t.ap.o.col, nonContig := t.ap.o.nonContig } } t.dt
-        (rawFill (totalSize t.ap.shape).toNat cells) := by
-  obtain ⟨cells, hr, rfl⟩ := rawEnc_spec st t rec h
+theorem fb_dec_enc (st : St) (t : Dense) (rec : Rec) (h : rawEnc st t = .ok rec) :
+    ∃ st1 r cells, packed st t = .ok (st1, r) ∧ r.rawCells st1 = .ok cells ∧
+      (0 ≤ totalSize r.ap.shape → ∃ st' d, fbDec st rec = .ok (st', d) ∧
+        Decoded st st' d { shape := r.ap.shape, strides := r.ap.strides, fin := true,
+                           o := { col := r.ap.o.col, nonContig := r.ap.o.nonContig } } r.dt
+          (rawFill (totalSize r.ap.shape).toNat cells)) := by
+  obtain ⟨st1, r, cells, hp, hr, rfl⟩ := rawEnc_spec st t rec h
+  refine ⟨st1, r, cells, hp, hr, ?_⟩
+  intro h0
   rw [fbDec_data _ _ _ _ _ _ h0]
-  exact ⟨cells, _, _, hr, rfl, ⟨rfl, rfl, rfl, rfl, rfl, ⟨rfl, by simp [rawFill_length]⟩⟩⟩
+  exact ⟨_, _, rfl, ⟨rfl, rfl, rfl, rfl, rfl, ⟨rfl, by simp [rawFill_length]⟩⟩⟩
 
 /-! ### npy -/
 
